@@ -62,9 +62,8 @@ class _FakeUintType:
 
     def __call__(self, x):
         if is_sym(x):
-            if isinstance(x, SymInt):
-                return x
-            return x.__floor__()  # callers pass non-negative values (uint semantics)
+            t = x if isinstance(x, SymInt) else x.__floor__()  # callers pass non-negative values (uint semantics)
+            return V.SymUInt(t.t)
         return self._real(x)
 
     def __getattr__(self, n):
